@@ -245,6 +245,24 @@ theorem reread_unaffected (w : World) (id : Nat) (f : HVal → HVal) (hsep : Sep
 example : Sep (step copyDiscipline sampleWorld sampleHandOut) ∧
     13 ∈ idsL (step copyDiscipline sampleWorld sampleHandOut).held := by decide +kernel
 
+/-- Together, over histories: **in every world reachable through the API, nothing the caller does
+    to an object it holds — an argument it passed, a result it was given, by `find`, by a cursor
+    read once or again, by `distinct`, by `aggregate` — changes what is stored or what a cursor
+    will hand out next.** -/
+theorem reachable_caller_cannot_reach (steps : List Step)
+    (h : wfRun copyDiscipline World.empty steps = true) (id : Nat) (f : HVal → HVal)
+    (hid : id ∈ idsL (run copyDiscipline World.empty steps).held) :
+    ((run copyDiscipline World.empty steps).mutate id f).store
+      = (run copyDiscipline World.empty steps).store ∧
+    ((run copyDiscipline World.empty steps).mutate id f).cache
+      = (run copyDiscipline World.empty steps).cache :=
+  ⟨mutate_held_noop _ id f (reachable_sep steps h).1 hid,
+   mutate_held_keeps_cache _ id f (reachable_sep steps h).1 hid⟩
+
+example : wfRun copyDiscipline World.empty sampleCursorHistory = true ∧
+    48 ∈ idsL (run copyDiscipline World.empty sampleCursorHistory).held ∧
+    (run copyDiscipline World.empty sampleCursorHistory).cache.length = 2 := by decide +kernel
+
 /-- **An in-place edit of a stored document** (an update through the API) **shows neither in what
     the caller holds nor in what a cursor has cached**. -/
 theorem mutate_stored_keeps_rest (w : World) (id : Nat) (f : HVal → HVal) (hsep : Sep w)
